@@ -612,13 +612,26 @@ impl<D: Distance> Writer<D> {
 
             // For each steps of the loop we starts by creating a new sub-tree with as many items as possible
             // and then insert all the remaining items that couldn't be selected into this new created tree.
-            let (leafs, to_insert) = ImmutableLeafs::new(
+            let (mut leafs, mut to_insert) = ImmutableLeafs::new(
                 wtxn,
                 self.database,
                 self.index,
                 &mut descendants,
                 options.available_memory.unwrap_or(usize::MAX),
             )?;
+            // The items we selected must not fit in a single descendant, otherwise the sub-tree we
+            // build is the same descendant again, it becomes too large once the remaining items are
+            // inserted and we loop forever. The memory is only a hint: take everything in this case.
+            if !descendants.is_empty() && self.fit_in_descendant(options, to_insert.len()) {
+                descendants |= to_insert;
+                (leafs, to_insert) = ImmutableLeafs::new(
+                    wtxn,
+                    self.database,
+                    self.index,
+                    &mut descendants,
+                    usize::MAX,
+                )?;
+            }
             let frozen_reader = FrozzenReader {
                 leafs: &leafs,
                 trees: &ImmutableTrees::empty(),
